@@ -470,6 +470,10 @@ func runC07(c *fw.Check) {
 		depth, maxIdx = 3, 3
 		c.SetBudget(50 * 60 * 1e9)
 	}
+	if c.Deep() {
+		maxIdx = 4
+		c.SetBudget(40 * 60 * 1e9)
+	}
 	elems := c07elemTypes(depth)
 	cases := c07build(elems, maxIdx)
 	c.Rule = fmt.Sprintf("source element types = %d nestings (depth <=%d) of [2 x T], <2 x T>, literal/packed structs and a named struct over {i8, i32}; base = T*, <2 x T*>, <vscale x 2 x T*> in address spaces 0 and 3; ALL index lists of length <=%d over 33 index forms (i32/i64/i8 constants, struct indices 8..12 of a 13-field struct spelled 8, 09, 010, 0011, 12, u0xA and as splats <i32 010, i32 010>, <i32 u0xC, i32 u0xC>, i1 true, scalar zeroinitializer, undef, poison, constant expression, inrange, non-constant scalar, fixed vector zeroinitializer/splat/non-splat/undef/poison/non-constant, scalable vector zeroinitializer/undef/non-constant) that a 30-line reference model of LLVM's typing rule deems valid; llvm-as confirms the model on every case (rejected cases are dropped and counted). For each case the types computed by the parser for the instruction, by the parser for the constant expression, by ir.NewGetElementPtr and by constant.NewGetElementPtr must all spell LLVM's result type, and llvm-as must accept the printed module (every result used at its reported type). distinct = (element type, base, index list).", len(elems), depth, maxIdx-0)
